@@ -51,6 +51,51 @@ def enum_name(t):
     return t[2] if t[0] == "enum" and t[1] == PID else None
 
 
+def captured_value_conflicts(ctx, ac):
+    prog = ctx.prog
+    ap = prog.funcs.get(f"{AC}.apply")
+    if ap is None:
+        return False
+    # the container handed to _apply_properties
+    cont = None
+    for n in ast.walk(ap.node):
+        if isinstance(n, ast.Call) and isinstance(n.func, ast.Attribute) and n.func.attr == "_apply_properties" and n.args:
+            for x in ast.walk(n.args[0]):
+                if isinstance(x, ast.Attribute) and isinstance(x.value, ast.Name) and x.value.id == ap.params[0]:
+                    cont = x.attr
+    if cont is None:
+        return False
+    by_attr = {}
+    for m in list(ac.methods.values()) + list(ac.props_set.values()):
+        if not m.params:
+            continue
+        recv = m.params[0]
+        keys, backs, withdraws = set(), set(), False
+        for n in ast.walk(m.node):
+            if isinstance(n, ast.Subscript) and isinstance(n.ctx, ast.Store) and isinstance(n.value, ast.Attribute) and n.value.attr == cont \
+                    and isinstance(n.value.value, ast.Name) and n.value.value.id == recv:
+                keys.add(norm(n.slice))
+            if isinstance(n, ast.Attribute) and isinstance(n.ctx, ast.Store) and isinstance(n.value, ast.Name) and n.value.id == recv and n.attr != cont:
+                backs.add(n.attr)
+            if (isinstance(n, ast.Call) and isinstance(n.func, ast.Attribute) and n.func.attr in ("pop", "discard", "remove", "clear") and isinstance(n.func.value, ast.Attribute)
+                    and n.func.value.attr == cont) or (isinstance(n, ast.Delete) and any(isinstance(t, ast.Subscript) and isinstance(t.value, ast.Attribute) and t.value.attr == cont
+                                                                                        for t in n.targets)):
+                withdraws = True
+        if keys and not withdraws:
+            for b in backs:
+                by_attr.setdefault(b, {}).setdefault(m.qual, set()).update(keys)
+    found = False
+    for b, setters in sorted(by_attr.items()):
+        all_keys = set().union(*setters.values())
+        if len(setters) >= 2 and len(all_keys) >= 2:
+            found = True
+            ctx.violation("C16.b", AC, f"setters {sorted(q.split('.')[-1] for q in setters)} all write self.{b} but record the captured value under different ids "
+                                       f"({sorted(all_keys)}) in self.{cont} without withdrawing the others: one apply sends several of these ids with values captured "
+                                       "at different times for the same state (e.g. two breeze modes written as active)",
+                          file=ac.module.rel, construct=f"self.{cont}[...] in setters of {b}")
+    return found
+
+
 def run(ctx):
     prog = ctx.prog
     L = Layouts(prog)
@@ -64,6 +109,12 @@ def run(ctx):
     # ---------------------------------------------------------------- _PROPERTY_MAP
     pm = ac.attrs.get("_PROPERTY_MAP")
     if not isinstance(pm, ast.Dict):
+        # no table from ids to current values: the values may be captured by the setters instead (a mapping id -> value filled when a setter
+        # runs and sent as it is).  That design is not decided here, except for one thing that is wrong in any version of it: two setters that
+        # write the same backing attribute but record the value under different ids, without withdrawing the other id - both ids then go out
+        # with values captured at different times for one piece of state (two breeze modes written as active)
+        if captured_value_conflicts(ctx, ac):
+            return          # (reported; the rest of the design is not decided)
         raise AnalysisError("AirConditioner._PROPERTY_MAP is not a dict literal")
     pmap = {}
     for k, v in zip(pm.keys, pm.values):
